@@ -589,6 +589,14 @@ def run_c19_repro(rep, tier, seed):
         "segmentation": lambda: SegmentationBuilder2D(3, 3, min_block_size=1, max_block_size=4),
         "segmentation-initial": lambda: (SegmentationBuilder2D(2, 4, min_num_blocks=2, max_block_size=3), B.Choice([0, 1], 0)),
     }
+    # ONE builder object used for both runs of a pair (and for all pairs): blocks handed in by the caller that do not meet the
+    # builder's own limits yet (initial() walks them into shape) -- the caller's blocks are the starting point of every run
+    given = [[(y, x) for y in range(2) for x in range(4)]]
+    shared_seg = SegmentationBuilder2D(2, 4, initial_blocks=given, max_block_size=3)
+    shared_arr = B.ArrayBuilder2D(2, 3, [0, 1, 2], 0, initial=[[1, 0, 2], [0, 0, 1]], disallow_adjacent=True)
+    patterns["segmentation-given-blocks (one builder object for all runs)"] = lambda: shared_seg
+    patterns["array-given-initial (one builder object for all runs)"] = lambda: shared_arr
+    given_snap = json.dumps(given)
     runs = 3 if tier == "quick" else 12
     for name, mk in patterns.items():
         for r in range(runs):
@@ -615,6 +623,11 @@ def run_c19_repro(rep, tier, seed):
                     srandom.use_deterministic_prng(False)
                 traces.append((trace, json.dumps(res, default=str)))
             rep.case(("repro", name, s), sample=dict(pattern=name, seed=s, candidates=len(traces[0][0])) if r == 0 else None)
+            if json.dumps(given) != given_snap:
+                rp = write_replay("C19", "repro_given_blocks_changed", dict(engine="repro", property="C19", pattern=name, seed=s))
+                rep.violation("repro:caller-blocks-changed", "generate_problem changed the blocks the caller handed to SegmentationBuilder2D(initial_blocks=...): %s" % json.dumps(given)[:200], rp)
+                given[:] = json.loads(given_snap)
+                given[:] = [[tuple(c) for c in blk] for blk in given]
             if traces[0] != traces[1]:
                 payload = dict(engine="repro", property="C19", pattern=name, seed=s,
                                first_difference=next((i for i, (a, b) in enumerate(zip(traces[0][0], traces[1][0])) if a != b), None))
